@@ -766,6 +766,44 @@ func runValidator(o *out, r *rng, thorough bool, pid string) {
 				}
 			}
 		}
+		// scripted: a genuine quorum justification for value A, once validated in partial form, must not carry a vote
+		// for value B (same sender set, same round): the stripped justification bytes are identical for both
+		for _, ph := range []gpbft.Phase{gpbft.COMMIT_PHASE, gpbft.DECIDE_PHASE, gpbft.CONVERGE_PHASE} {
+			a, bch := e.chains[0], e.chains[1]
+			rd := uint64(1 + r.intn(3))
+			mA := e.validMsg(10, rd, ph, a)
+			if ph != gpbft.COMMIT_PHASE && ph != gpbft.DECIDE_PHASE && mA.Justification.Vote.Phase != gpbft.PREPARE_PHASE {
+				continue // CONVERGE justified by COMMIT-bottom does not bind a value
+			}
+			prog = gpbft.InstanceProgress{Instant: gpbft.Instant{ID: 10, Round: mA.Vote.Round, Phase: gpbft.PREPARE_PHASE}}
+			progTerm := fmt.Sprintf("(mkProg %d %d %d)", prog.ID, prog.Round, int(prog.Phase))
+			pgA, err := pmsg.VerifStrip(cloneMsg(mA))
+			must(err)
+			wireA := cloneMsg(pgA.GMessage)
+			_, errA := v.PartiallyValidate(e.ctx, pgA)
+			ops = append(ops, fmt.Sprintf("(%s, OPartial %s %d, %d)", progTerm, e.msgTerm(wireA), e.keyTokOfKey(pgA.VoteValueKey), verdictCode(errA)))
+			desc = append(desc, fmt.Sprintf("partial[scripted honest %s for A] -> %d", ph, verdictCode(errA)))
+			// the forged twin: the same sender's genuinely signed vote for B with A's justification
+			pB := mA.Vote
+			pB.Value = bch
+			idx := e.cmts[10].PowerTable.Lookup[mA.Sender]
+			mB := e.build(verifNet, idx, pB, mA.Justification, ph == gpbft.CONVERGE_PHASE)
+			pgB, err := pmsg.VerifStrip(cloneMsg(mB))
+			must(err)
+			wireB := cloneMsg(pgB.GMessage)
+			_, errB := v.PartiallyValidate(e.ctx, pgB)
+			_, errF := fresh().PartiallyValidate(e.ctx, &gpbft.PartialGMessage{GMessage: cloneMsg(wireB), VoteValueKey: pgB.VoteValueKey})
+			if verdictCode(errB) != verdictCode(errF) {
+				viol("the verdict depends only on the message, the committee and the current progress, never on which messages were validated earlier", "c05-history-dependent",
+					fmt.Sprintf("%s for B carrying the quorum justification of A: warm validator %v, fresh validator %v", ph, errB, errF))
+			}
+			if errB == nil {
+				viol("a justification for a different value is never admitted through the two-stage path", "c13-justification-for-other-value",
+					fmt.Sprintf("partial validation accepted %s for B justified by a quorum for A", ph))
+			}
+			ops = append(ops, fmt.Sprintf("(%s, OPartial %s %d, %d)", progTerm, e.msgTerm(wireB), e.keyTokOfKey(pgB.VoteValueKey), verdictCode(errB)))
+			desc = append(desc, fmt.Sprintf("partial[scripted %s for B with A's justification] -> %d", ph, verdictCode(errB)))
+		}
 		// concurrent validation of the pool on the warm validator equals sequential fresh verdicts
 		if pid == "C05" && len(pool) > 0 {
 			prog = gpbft.InstanceProgress{Instant: gpbft.Instant{ID: 10, Round: 1, Phase: gpbft.PREPARE_PHASE}}
